@@ -224,6 +224,14 @@ class TestHttpRetryConfig:
         with pytest.raises(ValueError, match="backoff_max must be >= 0"):
             HttpRetryConfig(backoff_max=-1.0)
 
+    @pytest.mark.parametrize("bad", [float("nan"), float("inf")])
+    def test_non_finite_backoff_rejected(self, bad: float) -> None:
+        """NaN / inf bounds would defeat the min/max clamps, so they are rejected."""
+        with pytest.raises(ValueError, match="backoff_base must be >= 0 and finite"):
+            HttpRetryConfig(backoff_base=bad)
+        with pytest.raises(ValueError, match="backoff_max must be >= 0 and finite"):
+            HttpRetryConfig(backoff_max=bad)
+
     def test_zero_values_accepted(self) -> None:
         """Zero is a valid value for all numeric fields."""
         cfg = HttpRetryConfig(max_retries=0, backoff_base=0.0, backoff_max=0.0)
@@ -368,6 +376,29 @@ class TestComputeDelay:
             d = _compute_delay(0, cfg, 999.0)
             # With backoff_base=0.001, max jittered delay is 0.001
             assert d <= 0.001 + 0.001
+
+    def test_huge_attempt_does_not_overflow(self) -> None:
+        """``2**attempt`` past the float range must not raise OverflowError."""
+        cfg = HttpRetryConfig(max_retries=5000, backoff_base=0.5, backoff_max=3.0)
+        for attempt in (1023, 1024, 4999):
+            assert 0 <= _compute_delay(attempt, cfg, None) <= 3.0
+        zero = HttpRetryConfig(max_retries=5000, backoff_base=0.0, backoff_max=3.0)
+        assert _compute_delay(2000, zero, None) == 0.0
+        int_base = HttpRetryConfig(max_retries=5000, backoff_base=3, backoff_max=3.0)
+        assert _compute_delay(1023, int_base, None) == 3.0
+
+    def test_infinite_ceiling_never_yields_nan(self, monkeypatch: pytest.MonkeyPatch) -> None:
+        """A base so large that the ceiling is inf still gives a delay in [0, backoff_max]."""
+        monkeypatch.setattr("vgi_rpc.http._retry.random.uniform", lambda a, b: a + (b - a) * 0.0)
+        cfg = HttpRetryConfig(backoff_base=1e308, backoff_max=2.0)
+        assert _compute_delay(4, cfg, None) == 2.0
+
+    @pytest.mark.parametrize("retry_after", [float("nan"), float("inf"), float("-inf"), -5.0])
+    def test_special_retry_after_stays_in_bounds(self, retry_after: float) -> None:
+        """A NaN / infinite / negative Retry-After never escapes [0, backoff_max]."""
+        cfg = HttpRetryConfig(backoff_base=1.0, backoff_max=2.0)
+        for attempt in range(4):
+            assert 0 <= _compute_delay(attempt, cfg, retry_after) <= 2.0
 
     def test_always_non_negative(self) -> None:
         """Delay is always >= 0."""
